@@ -352,7 +352,7 @@ def cases(ctx):
         out += ss
         ctx.extra["exhaustive"] = True
         ctx.extra["exhaustive_note"] = f"all {len(ss)} modifier lists of length <= 4 over 6 modifiers (distinct controls)"
-    for _ in range(ctx.n(300, 3000)):
+    for _ in range(ctx.n(110, 2000)):
         out.append(_norm(rand_case(ctx.rng)))
     return out
 
